@@ -5606,9 +5606,9 @@ def format_float8(value):
         elif value < 1000000.0:
             field = f"{value:8.1f}"
         else:
-            field = f"{value:8.1f}"
+            field = f"{round(value):8.1f}"
             if field.index(".") < 8:
-                field = f"{round(value):8.1f}"[0:8]
+                field = field[0:8]
             else:
                 field = _format_scientific8(value)
             return field
@@ -5776,9 +5776,9 @@ def format_float16(value):
         elif value < 100000000000000.0:
             field = f"{value:16.1f}"
         else:
-            field = f"{value:16.1f}"
+            field = f"{round(value):16.1f}"
             if field.index(".") < 16:
-                field = f"{round(value):16.1f}"[0:16]
+                field = field[0:16]
             else:
                 field = _format_scientific16(value)
             return field
